@@ -148,7 +148,7 @@ func parRound(tw *vh.TraceWriter, res *vh.Result, sc int, cfg Cfg, keys []string
 		go func() { defer wg.Done(); w.rec[0](par[0].V, kvs[0]) }()
 		select {
 		case <-gt.entered: // goroutine 1 is parked where it first sees its set
-		case <-time.After(2 * time.Second):
+		case <-time.After(10 * time.Second):
 			res.Count("conc_gate_not_reached", 1)
 		}
 		for i := 1; i < g; i++ {
@@ -247,7 +247,7 @@ func pairScenario(tw *vh.TraceWriter, res *vh.Result, sc int, cfg Cfg, keys []st
 	go func() { defer wg.Done(); obs1 = collectRaw() }()
 	select {
 	case <-gt.entered:
-	case <-time.After(2 * time.Second):
+	case <-time.After(10 * time.Second):
 		res.Count("conc_gate_not_reached", 1)
 	}
 	wg.Add(1)
